@@ -172,6 +172,17 @@ func sineCases() []*pcase {
 			}
 		}
 	}
+	// the zero value of Amp (the field left out): no amplitude, i.e. the mean rate throughout
+	for _, mean := range []int{10, 100} {
+		for _, st := range []float64{0, math.Pi / 2} {
+			m := vegeta.Rate{Freq: mean, Per: time.Second}
+			c := &pcase{kind: "sine", desc: fmt.Sprintf("sine{period=1s,mean=%d/s,amp=zero-value,startAt=%s}", mean, radStr(st)), class: "valid",
+				p: vegeta.SinePacer{Period: time.Second, Mean: m, Amp: vegeta.Rate{}, StartAt: st}, tEnd: maxI64, hasL: true, per: int64(time.Second)}
+			c.S, c.rate, c.rmax = sineRef(time.Second, m, vegeta.Rate{Freq: 0, Per: time.Second}, st)
+			c.shape = "sine{amp=zero-value}"
+			out = append(out, c)
+		}
+	}
 	// invalid ones: must stop
 	sec := time.Second
 	inv := []struct {
